@@ -14,9 +14,11 @@ import (
 
 // ---------------------------------------------------------------- alterations
 
-// An alteration of a byte string: Kind "sub" replaces the byte at Pos by Val,
-// "trunc" keeps the first Pos bytes, "append" adds the byte Val, "dropfirst"
-// removes the first byte.
+// An alteration of a byte string: Kind "xor" XORs the byte at Pos with the
+// non-zero mask Val, "sub" replaces it by Val, "trunc" keeps the first Pos
+// bytes, "append" adds the byte Val, "dropfirst" removes the first byte, "base"
+// is no alteration at all (the base artefact itself could not be built; the
+// check then reports why).
 type alt struct {
 	Kind string
 	Pos  int
@@ -28,6 +30,8 @@ func (a alt) apply(b []byte) []byte {
 	switch a.Kind {
 	case "sub":
 		o[a.Pos] = byte(a.Val)
+	case "xor":
+		o[a.Pos] ^= byte(a.Val)
 	case "trunc":
 		o = o[:a.Pos]
 	case "append":
@@ -38,37 +42,32 @@ func (a alt) apply(b []byte) []byte {
 	return o
 }
 
-// subValues: the replacement values tried at a position holding old.
-func subValues(old byte, seed uint64, pos int, all bool) []int {
+// xorMasks: the masks tried at a position (all 255 when all is set).
+func xorMasks(seed uint64, pos, n int, all bool) []int {
 	if all {
-		var v []int
-		for x := 0; x < 256; x++ {
-			if byte(x) != old {
-				v = append(v, x)
-			}
+		v := make([]int, 0, 255)
+		for x := 1; x < 256; x++ {
+			v = append(v, x)
 		}
 		return v
 	}
-	cand := []byte{old ^ 0x01, old ^ 0x80, old ^ 0xff, 0x00, byte(gen.Mix(seed, uint64(pos)) | 1)}
+	cand := []int{0x01, 0x80, 0xff, int(gen.Mix(seed, uint64(pos))%253) + 2, 0x10}
 	var v []int
-	seen := map[byte]bool{old: true}
+	seen := map[int]bool{}
 	for _, x := range cand {
-		if !seen[x] {
+		if !seen[x] && len(v) < n {
 			seen[x] = true
-			v = append(v, int(x))
+			v = append(v, x)
 		}
 	}
 	return v
 }
 
-func emitAlts(n int, base []byte, seed uint64, nvals int, all bool, emit func(alt)) {
+// emitAlts enumerates the alterations of a string of n bytes.
+func emitAlts(n int, seed uint64, nmasks int, all bool, emit func(alt)) {
 	for pos := 0; pos < n; pos++ {
-		vals := subValues(base[pos], seed, pos, all)
-		if !all && len(vals) > nvals {
-			vals = vals[:nvals]
-		}
-		for _, v := range vals {
-			emit(alt{"sub", pos, v})
+		for _, m := range xorMasks(seed, pos, nmasks, all) {
+			emit(alt{"xor", pos, m})
 		}
 	}
 	for k := 0; k < n; k++ {
@@ -138,13 +137,14 @@ func TestC10_SignatureAlterations(t *testing.T) {
 		for b := 0; b < nb; b++ {
 			base, err := getSigBase(h.Seed, b)
 			if err != nil {
-				t.Fatalf("HARNESS-ERROR? cannot build base signature %d: %v", b, err)
+				emit(sigAltCase{b, alt{Kind: "base"}, h.Seed}) // the check reports the reason as a violation
+				continue
 			}
 			nv := 3
 			if quickPurego() {
 				nv = 2
 			}
-			emitAlts(len(base.sig), base.sig, gen.Mix(h.Seed, uint64(b)), nv, h.Thorough() && b == 0 && h.Cfg != "purego", func(a alt) {
+			emitAlts(len(base.sig), gen.Mix(h.Seed, uint64(b)), nv, h.Thorough() && b == 0 && h.Cfg != "purego", func(a alt) {
 				emit(sigAltCase{b, a, h.Seed})
 			})
 		}
@@ -177,7 +177,7 @@ func checkSigAlt(c sigAltCase, r *h.Rec) error {
 	}
 	r.NT()
 	r.Label("alt:" + c.Alt.Kind)
-	if c.Alt.Kind == "sub" {
+	if c.Alt.Kind == "sub" || c.Alt.Kind == "xor" {
 		r.Label(sigRegion(base.sig, c.Alt.Pos))
 	}
 	bad := c.Alt.apply(base.sig)
@@ -466,7 +466,8 @@ func TestC10_CiphertextAlterations(t *testing.T) {
 				for _, v := range vs {
 					base, err := getCtBase(h.Seed, mode, a, v)
 					if err != nil {
-						t.Fatalf("cannot build base ciphertext (%s, asn1=%v, %d): %v", modeNames[mode], a, v, err)
+						emit(ctAltCase{mode, a, v, alt{Kind: "base"}, h.Seed}) // the check reports the reason as a violation
+						continue
 					}
 					nv := 2
 					if quickPurego() {
@@ -475,7 +476,7 @@ func TestC10_CiphertextAlterations(t *testing.T) {
 					if h.Thorough() {
 						nv = 5
 					}
-					emitAlts(len(base.ct), base.ct, gen.Mix(h.Seed, uint64(mode), uint64(v)), nv, false, func(al alt) {
+					emitAlts(len(base.ct), gen.Mix(h.Seed, uint64(mode), uint64(v)), nv, false, func(al alt) {
 						emit(ctAltCase{mode, a, v, al, h.Seed})
 					})
 					if a { // the EnType octet: every defined type and a few undefined ones
@@ -545,11 +546,15 @@ func checkCtAlt(c ctAltCase, r *h.Rec) error {
 	r.Label("mode:" + modeNames[c.Mode])
 	r.Label("alt:" + c.Alt.Kind)
 	region := ""
-	if c.Alt.Kind == "sub" {
+	if c.Alt.Kind == "sub" || c.Alt.Kind == "xor" {
 		region = ctRegion(base, c.Alt.Pos)
 		r.Label(region)
 	}
 	bad := c.Alt.apply(base.ct)
+	newType := -1
+	if region == "ct:EnType" {
+		newType = int(bad[c.Alt.Pos])
+	}
 	for variant := 0; variant < 2; variant++ {
 		v := variant
 		if !c.ASN1 && len(bad) > 0 && bad[0] == 0x30 {
@@ -562,7 +567,7 @@ func checkCtAlt(c ctAltCase, r *h.Rec) error {
 			}
 			continue
 		}
-		if region == "ct:EnType" && definedMode(c.Alt.Val) {
+		if newType >= 0 && definedMode(newType) {
 			// not authenticated by C3 (GB/T 38635.2 10.4 has no such field); outcome recorded only
 			r.Label("EnType->other-defined-type:accepted")
 			continue
@@ -570,7 +575,7 @@ func checkCtAlt(c ctAltCase, r *h.Rec) error {
 		return fmt.Errorf("altered ciphertext decrypts (%s asn1=%v %v %s) to %s; original plaintext %s; altered %s original %s",
 			modeNames[c.Mode], c.ASN1, c.Alt, region, h.Hex(got), h.Hex(base.msg), h.Hex(bad), h.Hex(base.ct))
 	}
-	if region == "ct:EnType" && definedMode(c.Alt.Val) {
+	if newType >= 0 && definedMode(newType) {
 		r.Label("EnType->other-defined-type")
 	}
 	return nil
@@ -684,8 +689,7 @@ func TestC10_WrapAlterations(t *testing.T) {
 			if v == 1 {
 				n = 68 // 03 42 00 || 04 X Y
 			}
-			base := make([]byte, n) // positions only; values are taken relative to the real byte in the check
-			emitAlts(n, base, 0, 1, false, func(a alt) {
+			emitAlts(n, h.Seed, 2, false, func(a alt) {
 				if a.Kind == "dropfirst" && v == 0 {
 					return // 04||C -> C is the other accepted spelling of the same value
 				}
@@ -724,9 +728,6 @@ func checkWrapAlt(c wrapAltCase, r *h.Rec) error {
 		r.Label("wrap:raw")
 	}
 	a := c.Alt
-	if a.Kind == "sub" { // Val is relative: the sweep does not know the bytes
-		a.Val = int(in[a.Pos] ^ byte(1+gen.Mix(c.Seed, uint64(a.Pos))%255))
-	}
 	bad := a.apply(in)
 	if a.Kind == "point" {
 		p, err := decodeG1(b.cipher[1:])
